@@ -74,27 +74,36 @@ int cmd_enc(int argc, char** argv) {
         }
         if (op == "fill") {
             size_t target; ls >> target;
-            for (int guard = 0; guard < 24; guard++) {
-                size_t f = Access::enc_fill(*e);
-                if (f == target) break;
-                if (guard % 3 == 2) {
-                    // the previous attempts were upset by a flush at the start of the call: force that flush with an
-                    // empty string and aim again from the (low) fill level it leaves behind
-                    std::string none;
-                    call("bsn 0 " + std::to_string(ln), [&] { return e->write_bytestring(none); });
-                    continue;
-                }
-                size_t need = (target + CdnsEncoder::BUFFER_SIZE - f) % CdnsEncoder::BUFFER_SIZE;
-                if (need == 0) need = CdnsEncoder::BUFFER_SIZE;
-                // payload length n with head(n)+n == need where possible, otherwise undershoot and loop
+            const size_t B = CdnsEncoder::BUFFER_SIZE;
+            auto filler = [&](size_t total) {
+                // one byte string whose head + payload is `total` bytes where possible, otherwise one byte less
                 size_t n;
-                if (need <= 24) n = need - 1;
-                else if (need == 25) n = 23;
-                else if (need <= 257) n = need - 2;
-                else if (need == 258) n = 255;
-                else n = need - 3;
+                if (total <= 24) n = total - 1;
+                else if (total == 25) n = 23;
+                else if (total <= 257) n = total - 2;
+                else if (total == 258) n = 255;
+                else if (total <= 65538) n = total - 3;
+                else n = total - 5;
                 std::string p = pattern(n, static_cast<unsigned>(ln));
                 call("bsn " + std::to_string(n) + " " + std::to_string(ln), [&] { return e->write_bytestring(p); });
+            };
+            for (int guard = 0; guard < 16; guard++) {
+                size_t f = Access::enc_fill(*e);
+                if (f == target) break;
+                if (guard % 2 == 0) {
+                    // aim directly (works when the encoder splits strings across its buffer)
+                    size_t need = (target + B - f) % B;
+                    filler(need == 0 ? B : need);
+                }
+                else {
+                    // the direct attempt was upset by a flush policy (flush at the start of a call, strings kept in one piece,
+                    // large strings written directly ...): empty the buffer with a string longer than it, then aim from zero
+                    filler(((B - f) % B) + B);
+                    if (Access::enc_fill(*e) != 0) {
+                        std::string none;
+                        call("bsn 0 " + std::to_string(ln), [&] { return e->write_bytestring(none); });
+                    }
+                }
             }
             fprintf(out, "fill = %zu\n", Access::enc_fill(*e));
             continue;
